@@ -465,6 +465,16 @@ class StmtMixin(CallMixin):
                 yield {"kind": "set", "set": v, "node": it}, s
             elif v.ty.kind == "dict" or V.is_empty_literal(v, "dict"):
                 yield {"kind": "dict", "d": v, "mode": "keys", "node": it}, s
+            elif v.ty.kind == "ref" and S.lookup_method(v.ty.name, "__iter__") is not None:
+                # an object iterated through the contract of its __iter__ (a file object: the list of its lines)
+                c = S.lookup_method(v.ty.name, "__iter__")
+                for lv, s2 in self.call_contract(c, v, [], {}, s, it, recv_node=it):
+                    if isinstance(lv, Raise):
+                        yield lv, s2
+                    elif lv.ty.kind == "list" or V.is_empty_literal(lv, "list"):
+                        yield {"kind": "list", "lst": lv, "node": None}, s2
+                    else:
+                        raise UnsupportedError(f"__iter__ contract of {v.ty.name} must return a list")
             else:
                 raise UnsupportedError(f"iteration over {v.ty} at line {it.lineno}")
 
